@@ -377,9 +377,38 @@ def exec_append(case):
     try:
         appended = []
         files = set()
-        for e in case['entries']:
+        fault = case.get('fault')
+        for n, e in enumerate(case['entries']):
             rec = _mk_record(e)
-            chron.append(rec)
+            if fault and n == fault[0] % len(case['entries']):
+                # one transient failure of the n-th open() inside this
+                # append (too many open files); the caller tries again
+                calls = [0]
+
+                def faulty(*a, _calls=calls, **k):
+                    _calls[0] += 1
+                    if _calls[0] == fault[1] + 1:
+                        import errno
+                        raise OSError(errno.EMFILE, 'Too many open files '
+                                      '(injected)', str(a[0]))
+                    return open(*a, **k)
+
+                chron.open = faulty
+                try:
+                    chron.append(rec)
+                    out.label('fault-not-reached'
+                              if calls[0] <= fault[1] else 'fault-swallowed')
+                except OSError:
+                    out.label('append-raised-and-was-retried')
+                    del chron.open
+                    chron.append(rec)
+                finally:
+                    if 'open' in chron.__dict__:
+                        del chron.open
+                if len(appended) and calls[0] > fault[1]:
+                    out.nontrivial = True
+            else:
+                chron.append(rec)
             appended.append(rec)
             f = (rec['timing']['completed'].split(' ')[0], rec['runid'])
             if f in files:
@@ -395,7 +424,9 @@ def exec_append(case):
 
 
 _append_case = st.fixed_dictionaries(
-    {'entries': st.lists(_entry, min_size=2, max_size=12)}
+    {'entries': st.lists(_entry, min_size=2, max_size=12),
+     'fault': st.one_of(st.none(), st.tuples(st.integers(0, 11),
+                                             st.integers(0, 1)).map(list))}
 )
 
 
